@@ -130,7 +130,8 @@ class G:
                 out.append("cancel")
             elif r < 0.82 and "setservers" in allow and (not self.ss_used or NEST_SS):
                 self.ss_used = True
-                out.append("setservers %s" % rng.choice(["10.0.0.9", "10.0.0.1,10.0.0.7", "10.0.0.2", "-"]))
+                # (a list with a comma cannot be written inside a script: the comma separates the script's words)
+                out.append("setservers %s" % rng.choice(["10.0.0.9", "10.0.0.1", "10.0.0.2", "-"]))
             elif r < 0.9:
                 out.append(rng.choice(["qlen", "fds", "tmo"]))
             elif "req" in allow:
